@@ -108,7 +108,7 @@ class URL(NamedTuple):
 
     @classmethod
     def parse(cls, url):
-        match = re.match(URL_REGEX, url)
+        match = re.fullmatch(URL_REGEX, url)
 
         if match is None:
             raise ValueError('Invalid LBRY URL')
